@@ -40,6 +40,11 @@ type C14Case struct {
 	// again (restricted to that version) and must still give its recorded rows (C11: a commit
 	// that retires versions under a fault must not lose them)
 	Reread bool `json:"reread,omitempty"`
+	// NoRefresh: after the fault has cleared the connection goes on writing WITHOUT an
+	// s3db_refresh in between (a failed commit must leave the handle in a state from which
+	// the next commit is again complete: "never reports success for a write that a later
+	// open cannot see")
+	NoRefresh bool `json:"no_refresh,omitempty"`
 }
 
 func genC14Case(t *rapid.T) C14Case {
@@ -77,6 +82,7 @@ func genC14Case(t *rapid.T) C14Case {
 		c.RO = rapid.IntRange(0, 2).Draw(t, "ro") != 0
 	}
 	c.Reread = c.Target != "vacuum" && rapid.IntRange(0, 2).Draw(t, "reread") == 0
+	c.NoRefresh = (c.Target == "write" || c.Target == "txn" || c.Target == "vacuum") && rapid.Bool().Draw(t, "norefresh")
 	if c.Target == "vacuum" || rapid.IntRange(0, 3).Draw(t, "withLate") == 0 {
 		lcfg := cfg
 		lcfg.multiRow = false
@@ -425,21 +431,25 @@ func runC14(c C14Case, o *Obs) error {
 			h.close()
 			return fmt.Errorf("%s: the table cannot be used after the fault cleared: %v", desc, err)
 		}
-		if err := h.conn.Refresh(h.name); err != nil {
-			h.close()
-			return fmt.Errorf("%s: s3db_refresh after the fault cleared fails: %v", desc, err)
+		if !c.NoRefresh {
+			if err := h.conn.Refresh(h.name); err != nil {
+				h.close()
+				return fmt.Errorf("%s: s3db_refresh after the fault cleared fails: %v", desc, err)
+			}
+		} else {
+			o.Class("continues-without-refresh")
 		}
 		same, err := h.conn.Dump(h.name)
 		if err != nil {
 			h.close()
-			return fmt.Errorf("%s: scan on the same connection after refresh: %v", desc, err)
+			return fmt.Errorf("%s: scan on the same connection after the fault cleared (refresh: %v): %v", desc, !c.NoRefresh, err)
 		}
 		fresh, err := r.observe(st.Clone(), true, nil, "fresh")
 		if err != nil {
 			h.close()
 			return fmt.Errorf("%s: a fresh connection cannot read the table afterwards: %v", desc, err)
 		}
-		if !same.Equal(fresh) {
+		if !same.Equal(fresh) && !(c.NoRefresh && len(lateOps) > 0) {
 			h.close()
 			return fmt.Errorf("%s: the refreshed connection and a fresh connection disagree.\nsame:\n%sfresh:\n%s", desc, same, fresh)
 		}
